@@ -404,6 +404,8 @@ def make_patches(S, force_cap):
 
         def _run(self):
             try:
+                if getattr(S, 'late_begin', False):
+                    S.op('begin')           # "thread start" is an event of its own: the body begins when the scheduler says so
                 self._target(*self._args)
             except Abort:
                 return
@@ -452,7 +454,7 @@ class YieldFile:
 BIT = {'TM': 1, 'TC': 2, 'TW': 4}
 
 
-def replay(scn, cap, schedule, tail='D', max_tail=400, chooser=None):
+def replay(scn, cap, schedule, tail='D', max_tail=400, chooser=None, late_begin=False):
     """run scenario `scn` (a function out_path, cap -> None that calls a converter's run) under the scheduler.
     schedule: string over M/C/W for the run_conversion_loop phase (None: use chooser(enabled names) for every step).
     tail: after the schedule is exhausted, 'D' = daemon threads first, 'M' = calling thread first.
@@ -461,6 +463,7 @@ def replay(scn, cap, schedule, tail='D', max_tail=400, chooser=None):
         schedule = [UNLETTER[c] for c in schedule]
     S = Sched()
     S.caps_seen = []
+    S.late_begin = late_begin
     force = scn.force_cap(cap)
     Q, T, Z = make_patches(S, force)
     out = os.path.join(TMP, 'out.sgz')
@@ -494,6 +497,16 @@ def replay(scn, cap, schedule, tail='D', max_tail=400, chooser=None):
                 obs['hang'] = True
                 break
             en = S.enabled()
+            if late_begin:
+                # started threads whose bodies have not begun: they begin only once the calling thread is past ALL its start()
+                # calls (it is parked at something else, or has finished); until then they are not candidates
+                with S.cv:
+                    begins = sorted(n_ for n_, (lab_, _) in S.parked.items() if lab_ == 'begin')
+                    tm_lab = S.parked.get('TM', (None, None))[0]
+                if begins and (tm_lab != 'start' or 'TM' not in en):
+                    S.go(begins[-1])            # the thread started LAST begins first
+                    continue
+                en = [t_ for t_ in en if t_ not in begins]
             if flushed_at is None and any(k == 'flush' for _, k, _ in S.writes):
                 flushed_at = len(S.writes)
             in_sched = (schedule is not None and pos < len(schedule)) or (schedule is None and flushed_at is None and 'TM' not in S.finished)
@@ -851,7 +864,7 @@ def schedules_for(progs, n, cap, budget, search):
                                                'bad_example': bad[0] if bad else None}
 
 
-def random_search(scn, cap, tries, stats):
+def random_search(scn, cap, tries, stats, late_begin=False):
     """model-free: random schedules judged by the oracle only"""
     ref = reference(scn, cap)
     if ref['obs']['exc'] or ref['obs']['deadlock'] or not ref['obs']['finished']:
@@ -872,10 +885,10 @@ def random_search(scn, cap, tries, stats):
                 return bias
             return r.choice(en)
         tail = 'D' if i % 2 == 0 else 'M'
-        obs = replay(scn, cap, None, tail=tail, chooser=chooser)
-        judge(scn, cap, None, tail, obs, ref)
-        R.case((scn.route, scn.n, cap, str(sched_text(obs.get('chosen', [])))), nontrivial=True)
-        R.count(f'random/{scn.route}/n{scn.n}/cap{cap}')
+        obs = replay(scn, cap, None, tail=tail, chooser=chooser, late_begin=late_begin)
+        judge(scn, cap, None, tail + (', thread bodies begin after every start() call' if late_begin else ''), obs, ref)
+        R.case((scn.route, scn.n, cap, late_begin, str(sched_text(obs.get('chosen', [])))), nontrivial=True)
+        R.count(f'random{"-late-begin" if late_begin else ""}/{scn.route}/n{scn.n}/cap{cap}')
 
 
 def main():
@@ -892,8 +905,9 @@ def main():
         # re-execute one recorded input (same seed -> same data)
         scn = scns[(inp['route'], inp['n'])]
         ref = reference(scn, inp['capacity'])
-        obs = replay(scn, inp['capacity'], inp.get('schedule') or None, tail=inp.get('tail', 'D'),
-                     chooser=sequential_chooser)
+        lb = 'begin after' in str(inp.get('tail', ''))
+        obs = replay(scn, inp['capacity'], inp.get('schedule') or None, tail=str(inp.get('tail', 'D'))[:1],
+                     chooser=sequential_chooser, late_begin=lb)
         judge(scn, inp['capacity'], inp.get('schedule'), inp.get('tail', 'D'), obs, ref)
         R.case(('replay',), nontrivial=True)
         R.write(a.out)
@@ -927,6 +941,13 @@ def main():
                                f'bad terminal states in the model: {info["bad_terminals_in_model"]}'
                                + (f' e.g. {info["bad_example"]}' if info['bad_example'] else ''))
             run_config(scns[(rname, n)], cap, scheds, use_model, stats)
+    # "thread start" as an event of its own: every started thread's body begins only after the calling thread is past all its
+    # start() calls (the thread started last begins first), then random schedules; judged by the oracle only
+    for rname in routes:
+        for cap in (1, 2):
+            if time.time() - T_START > TIME_BUDGET + 20:
+                break
+            random_search(scns[(rname, 2)], cap, 2 if QUICK else 10, stats, late_begin=True)
     if PROGS is None or a.search:
         for rname, n, cap, budget in plan:
             if cap == 16 and n < 3:
